@@ -35,6 +35,7 @@ package martian
 // ---- stall limits (C15): which read deadline is armed while waiting for what ----
 
 // rdN(c): how many read deadlines have been set on c; rdAt(c, k): the k-th one.
+//@ ghost ivar firstByteClk() int
 //@ ghost ivar rdN(net.Conn) int
 //@ ghost ivar rdAt(net.Conn, int) time.Time
 //@ func (net.Conn).SetReadDeadline as (c net.Conn, t time.Time) (err error)
@@ -73,6 +74,15 @@ package martian
 //@ modifies http.Request.ContentLength
 //@ pure martian.withTraceID martian.newTraceID
 
+// (waiting for the first byte of the next request: the clock reading at which it
+// arrived is remembered - the header limit must be counted from a reading taken
+// after it, not from the start of the idle wait)
+//@ func (*bufio.ReadWriter).Peek as (b *bufio.ReadWriter, n int) (result0 []byte, result1 error)
+//@ trusted
+//@ modifies *, firstByteClk()
+//@ preserves proxyConn.* Proxy.* bufio.ReadWriter.* http.Response.StatusCode http.Response.Request http.Request.Method http.Response.Header http.Request.Header http.Request.URL http.Request.Body http.Response.Body
+//@ ensures firstByteClk() == clk()
+
 // readRequest: while waiting for the first byte of the next request the idle
 // deadline is armed (none when the timeout is 0); from the first byte until the
 // head is complete the read-header deadline; afterwards the whole-request
@@ -82,16 +92,16 @@ package martian
 //@ property C15 C13
 //@ ghostset readOK() := (result1 == nil)
 //@ requires p != nil && p.Proxy != nil && p.conn != nil && p.brw != nil && p.brw.Reader != nil && lockDepth() == 0
-//@ modifies *, readOK(), rdN(p.conn), rdAt
+//@ modifies *, readOK(), rdN(p.conn), rdAt, clk(), firstByteClk()
 //@ preserves proxyConn.* Proxy.* bufio.ReadWriter.*
 //@ ensures result1 == nil ==> result0 != nil && result0.Body != nil && result0.URL != nil && result0.Header != nil
 //@ ensures rdN(p.conn) >= old(rdN(p.conn)) + 1
-//@ ensures idleT(p.Proxy) > 0 ==> rdAt(p.conn, old(rdN(p.conn))) == tAddOf(theNow(), idleT(p.Proxy))
+//@ ensures idleT(p.Proxy) > 0 ==> rdAt(p.conn, old(rdN(p.conn))) == tAddOf(tOf(old(clk())), idleT(p.Proxy))
 //@ ensures idleT(p.Proxy) <= 0 ==> noDeadline(rdAt(p.conn, old(rdN(p.conn))))
 //@ ensures result1 == nil ==> rdN(p.conn) >= old(rdN(p.conn)) + 2
-//@ ensures result1 == nil && hdrT(p.Proxy) > 0 ==> rdAt(p.conn, old(rdN(p.conn)) + 1) == tAddOf(theNow(), hdrT(p.Proxy))
+//@ ensures result1 == nil && hdrT(p.Proxy) > 0 ==> rdAt(p.conn, old(rdN(p.conn)) + 1) == tAddOf(tOf(firstByteClk()), hdrT(p.Proxy))
 //@ ensures result1 == nil && hdrT(p.Proxy) <= 0 ==> noDeadline(rdAt(p.conn, old(rdN(p.conn)) + 1))
-//@ ensures result1 == nil && p.ReadTimeout > 0 ==> teq(rdAt(p.conn, rdN(p.conn) - 1), tAddOf(theNow(), p.ReadTimeout))
+//@ ensures result1 == nil && p.ReadTimeout > 0 ==> teq(rdAt(p.conn, rdN(p.conn) - 1), tAddOf(tOf(firstByteClk()), p.ReadTimeout))
 //@ ensures result1 == nil && p.ReadTimeout <= 0 ==> exists z time.Time :: noDeadline(z) && teq(rdAt(p.conn, rdN(p.conn) - 1), z)
 
 //@ func (*Proxy).closing
@@ -190,8 +200,9 @@ package martian
 // (Peek does not consume)
 //@ func (*bufio.Reader).Peek as (b *bufio.Reader, n int) (result0 []byte, result1 error)
 //@ trusted
-//@ pure
+//@ modifies firstByteClk()
 //@ ensures result1 == nil ==> len(result0) == n
+//@ ensures firstByteClk() == clk()
 
 //@ func (*Proxy).fixRequestScheme, upgradeType, shouldTerminateTLS, proxyutil.Warning
 //@ trusted
@@ -365,7 +376,7 @@ package martian
 // ---- the per-request handler (C13 L13.1, C04 L4.1, C11 L11.2) ----
 
 // TLS / bufio / MITM plumbing used by handleMITM (crypto and buffering are library behaviour).
-//@ func (*bufio.ReadWriter).Peek, (*bufio.ReadWriter).Read, (*bufio.Reader).Read, tls.Server, (*tls.Conn).ConnectionState, (*mitm.Config).TLSForHost, (*mitm.Config).HandshakeErrorCallback, (*mitm.Config).H2Config, (*h2.Config).Proxy, (*bufio.Writer).Reset, (*bufio.Reader).Reset, io.MultiReader, bytes.NewReader, (net.Addr).String
+//@ func (*bufio.ReadWriter).Read, (*bufio.Reader).Read, tls.Server, (*tls.Conn).ConnectionState, (*mitm.Config).TLSForHost, (*mitm.Config).HandshakeErrorCallback, (*mitm.Config).H2Config, (*h2.Config).Proxy, (*bufio.Writer).Reset, (*bufio.Reader).Reset, io.MultiReader, bytes.NewReader, (net.Addr).String
 //@ trusted
 //@ modifies *
 //@ preserves proxyConn.* Proxy.* bufio.ReadWriter.* http.Response.StatusCode http.Response.Request http.Request.Method http.Response.Header http.Request.Header http.Request.URL http.Request.Body http.Response.Body
@@ -473,7 +484,7 @@ package martian
 //@ property C03
 //@ ghostset drained(w) := (result == nil)
 //@ requires r != nil && w != nil
-//@ modifies wlen(w), wdata, wrFailed(w), elems(byte), drained(w)
+//@ modifies wlen(w), wdata, wrFailed(w), elems(byte), drained(w), firstByteClk()
 //@ ensures result == nil && !wrFailed(w) ==> wlen(w) == old(wlen(w)) + bufN(r)
 //@ ensures bufN(r) == 0 ==> wlen(w) == old(wlen(w)) && result == nil
 
